@@ -18,6 +18,7 @@ import (
 	"encoding/xml"
 	"fmt"
 	"io"
+	"reflect"
 	"strings"
 
 	"github.com/paulmach/osm"
@@ -471,6 +472,7 @@ func object(r *kit.Run, c Case, kind string, v interface{}, into interface{}) {
 		return
 	}
 	record(r, c, kind, data)
+	byValue(r, c, kind, v, data, false)
 	if err := safeUnmarshal(data, into); err != nil {
 		r.Violation(errClause("unmarshal", err)+"/"+kind, fmt.Sprintf("%v: %v\n%s", c, err, clip(string(data), 600)), c)
 		return
@@ -497,6 +499,7 @@ func osmContainer(r *kit.Run, c Case, v *osm.OSM, indent bool) {
 		return
 	}
 	record(r, c, "osm", data)
+	byValue(r, c, "osm", v, data, indent)
 	got := &osm.OSM{}
 	if err := safeUnmarshal(data, got); err != nil {
 		r.Violation(errClause("unmarshal", err)+"/osm", fmt.Sprintf("%v: %v\n%s", c, err, clip(string(data), 600)), c)
@@ -552,6 +555,7 @@ func changeContainer(r *kit.Run, c Case, v *osm.Change) {
 		return
 	}
 	record(r, c, "osmChange", data)
+	byValue(r, c, "osmChange", v, data, false)
 	got := &osm.Change{}
 	if err := safeUnmarshal(data, got); err != nil {
 		r.Violation(errClause("unmarshal", err)+"/osmChange", fmt.Sprintf("%v: %v\n%s", c, err, clip(string(data), 600)), c)
@@ -575,6 +579,7 @@ func diffContainer(r *kit.Run, c Case, v *osm.Diff) {
 		return
 	}
 	record(r, c, "diff", data)
+	byValue(r, c, "diff", v, data, false)
 	got := &osm.Diff{}
 	if err := safeUnmarshal(data, got); err != nil {
 		r.Violation(errClause("unmarshal", err)+"/diff", fmt.Sprintf("%v: %v\n%s", c, err, clip(string(data), 600)), c)
@@ -753,6 +758,24 @@ func errClause(base string, err error) string {
 		return base + "-panic"
 	}
 	return base + "-error"
+}
+
+// byValue marshals the value v points to as a plain, non-addressable value
+// (xml.Marshal(note) instead of xml.Marshal(&note)): encoding/xml then only
+// finds value-receiver marshalers, and the text must not depend on it.
+func byValue(r *kit.Run, c Case, kind string, v interface{}, data []byte, indent bool) {
+	rv := reflect.ValueOf(v)
+	if rv.Kind() != reflect.Ptr || rv.IsNil() {
+		return
+	}
+	data2, err := safeMarshal(rv.Elem().Interface(), indent)
+	if err != nil {
+		r.Violation(errClause("marshal", err)+"/by-value/"+kind, fmt.Sprintf("%v: marshalling the value instead of the pointer: %v", c, err), c)
+		return
+	}
+	if !bytes.Equal(data, data2) {
+		r.Violation("marshal/by-value-differs/"+kind, fmt.Sprintf("%v: xml.Marshal(value) differs from xml.Marshal(&value):\n%s\nvs\n%s", c, clip(string(data2), 600), clip(string(data), 600)), c)
+	}
 }
 
 func safeMarshal(v interface{}, indent bool) (data []byte, err error) {
